@@ -174,9 +174,18 @@ def run_prover(root, prop, tier, jobs):
             return []
         if jobs <= 1 or len(ts) == 1:
             return [_worker(t) for t in ts]
+        # ProcessPoolExecutor, not multiprocessing.Pool: when a forked worker dies (the OOM killer did that once under
+        # load) Pool.map waits forever, while the executor raises BrokenProcessPool; the tasks are then retried with
+        # fewer workers and finally in this process, so a check ends with a verdict instead of hanging
+        import concurrent.futures as cf
         ctx = mp.get_context("fork")
-        with ctx.Pool(min(jobs, len(ts))) as pool:
-            return pool.map(_worker, ts, chunksize=1)
+        for workers in (min(jobs, len(ts)), min(4, len(ts))):
+            try:
+                with cf.ProcessPoolExecutor(max_workers=workers, mp_context=ctx) as ex:
+                    return list(ex.map(_worker, ts, chunksize=1))
+            except cf.process.BrokenProcessPool:
+                sys.stderr.write("NOTE: a verification worker died; retrying the batch with fewer workers\n")
+        return [_worker(t) for t in ts]
     results = run_tasks(tasks)
     # dependencies: contracts of callees used modularly are verified in the same run (transitively), so that a
     # change inside a callee that breaks the contract this property relies on is reported by this check too
